@@ -25,6 +25,8 @@ structure PoolSt where
   serial : Int := initialSerial
   buffer : List Nat := []       -- `event_buffer`: event ids, oldest first
   procs : List Lst := []
+  ids : List Nat := []          -- the identity of each listener's Subprocess object (unique in the world)
+  names : List String := []     -- each listener's `config.name` (the same name may occur in several pools)
 deriving Repr
 
 inductive POut
@@ -103,10 +105,23 @@ def notify (c : Cls) (payload : Bytes) (w : W) : W :=
   let w1 := { w with events := w.events ++ [{ cls := c, payload := payload }] }
   (notified (callbacks w.pools) c).foldl (fun acc i => acceptEvent i e false acc) w1
 
-/-- `notify(EventRejectedEvent(process, event))`: every pool's `handle_rejected`; only the pool the
-    process belongs to (identity) re-buffers the event -/
-def rejected (pi : Nat) (e : Nat) (w : W) : W :=
-  (List.range w.pools.length).foldl (fun acc i => if i == pi then acceptEvent i e true acc else acc) w
+/-- `any(process is p for p in procs)`: the rejecting process is one of this pool's process *objects*.
+    The listeners' names play no part (two pools may have listeners of the same name). -/
+def owns (p : PoolSt) (who : Option Nat) : Bool :=
+  match who with
+  | some x => p.ids.contains x
+  | none => false
+
+/-- the identity of listener `li` of pool `pi` -/
+def whoOf (w : W) (pi li : Nat) : Option Nat := (w.pools[pi]?).bind (·.ids[li]?)
+
+/-- `notify(EventRejectedEvent(process, event))`: every pool's `handle_rejected` runs; only a pool that owns the
+    rejecting process object re-buffers the event -/
+def rejected (who : Option Nat) (e : Nat) (w : W) : W :=
+  (List.range w.pools.length).foldl (fun acc i =>
+    match acc.pools[i]? with
+    | some p => if owns p who then acceptEvent i e true acc else acc
+    | none => acc) w
 
 def natBytes (n : Int) : Bytes := bytesOfString (toString n)
 
@@ -122,7 +137,7 @@ def absorb (pi li : Nat) (os : List Listener.Out) (w : W) : W :=
   os.foldl (fun acc o =>
     let acc1 := { acc with outs := acc.outs ++ [.lis pi li o] }
     match o with
-    | .rejected (some e) => rejected pi e acc1
+    | .rejected (some e) => rejected (whoOf acc pi li) e acc1
     | _ => acc1) w
 
 /-- run a listener-level operation on listener `li` of pool `pi` -/
@@ -296,20 +311,30 @@ def runOps (h : Bytes → HRes) : W → List String → List String
     | some op => let w' := step h w op; showW w' w.outs.length :: runOps h w' ls
 
 /-- pools=name:bufsize:nlisteners:TYPE+TYPE,… -/
-def parsePools (spec : String) : Option (List PoolSt) :=
+def parsePools (spec : String) (shared : Bool) : Option (List PoolSt) :=
   (spec.splitOn ",").mapM fun ps =>
     match ps.splitOn ":" with
     | [name, bs, nl, types] =>
       match bs.toInt?, nl.toNat?, ((types.splitOn "+").filter (· ≠ "")).mapM parseCls with
       | some b, some n, some ts =>
-        some { name := name, bufSize := b, subs := ts, procs := List.replicate n Listener.initial }
+        some { name := name, bufSize := b, subs := ts, procs := List.replicate n Listener.initial,
+               names := (List.range n).map fun j => if shared then s!"l{j}" else s!"{name}_l{j}" }
       | _, _, _ => none
     | _ => none
 
+/-- object identities: numbered through all pools, so no two listeners share one -/
+def assignIds : Nat → List PoolSt → List PoolSt
+  | _, [] => []
+  | k, p :: ps => { p with ids := (List.range p.procs.length).map (· + k) } :: assignIds (k + p.procs.length) ps
+
 def runCase (cfg : List String) (ops : List String) : List String :=
-  match kvGet cfg "handler", (kvGet cfg "pools").bind parsePools with
-  | some "default", some ps => runOps defaultHandler { pools := ps } ops
-  | some "strict", some ps => runOps strictHandler { pools := ps } ops
+  let shared := match kvGet cfg "names" with
+    | some "shared" => some true
+    | some "unique" => some false
+    | _ => none
+  match kvGet cfg "handler", shared.bind (fun sh => (kvGet cfg "pools").bind (parsePools · sh)) with
+  | some "default", some ps => runOps defaultHandler { pools := assignIds 0 ps } ops
+  | some "strict", some ps => runOps strictHandler { pools := assignIds 0 ps } ops
   | _, _ => ops.map fun _ => "bad-config"
 
 end Sv.Pool
